@@ -78,7 +78,7 @@ Proof. unfold all_entries. rewrite map_length, seq_length. reflexivity. Qed.
    together they are the whole matrix - for every chunk size and every budget *)
 Theorem iterate_csc_exact m n_rows n_cols c E L Lc :
   wf_comp m n_rows -> length (ptr m) = S n_cols -> length (dat m) = length (idx m) ->
-  no_dup_minor m -> idx m <> [] -> 1 <= c -> 1 <= L -> 1 <= Lc ->
+  no_dup_minor m -> 1 <= c -> 1 <= L -> 1 <= Lc ->
   let M := map (fun r => map (fun j => cell m j r) (seq 0 n_cols)) (seq 0 n_rows) in
   exists bl, iterate_csc m n_rows n_cols c E L Lc = Ok bl /\
     chained 0 (map fst bl) n_rows /\
@@ -86,9 +86,8 @@ Theorem iterate_csc_exact m n_rows n_cols c E L Lc :
     Forall (fun b => snd b = slice M (fst (fst b)) (snd (fst b))) bl /\
     concat (map snd bl) = M.
 Proof.
-  intros W HP HD ND Hne Hc HL HLc. cbn zeta. unfold iterate_csc.
+  intros W HP HD ND Hc HL HLc. cbn zeta. unfold iterate_csc.
   destruct (transpose_full m n_cols true n_rows None E L Lc W HP (fun _ => HD) HL HLc) as (t & EQ & Ht).
-  { intros _. cbn [apply_slice]. rewrite all_entries_length. destruct (idx m); [congruence | discriminate]. }
   cbn zeta in Ht. destruct Ht as (EO & _ & _ & _ & _ & _ & _ & _ & Hd).
   destruct (Hd eq_refl) as (_ & _ & HDense). cbn [n_out_of Nat.add] in HDense.
   rewrite EQ. cbn [bind].
@@ -102,7 +101,7 @@ Theorem encodings_agree (d : dense) mr mc nr nc c1 c2 c3 E L Lc :
   length d = nr ->
   wf_csr mr nr nc -> no_dup_minor mr -> dense_of mr nr nc = d ->
   wf_comp mc nr -> length (ptr mc) = S nc -> length (dat mc) = length (idx mc) ->
-  no_dup_minor mc -> idx mc <> [] ->
+  no_dup_minor mc ->
   map (fun r => map (fun j => cell mc j r) (seq 0 nc)) (seq 0 nr) = d ->
   1 <= c1 -> 1 <= c2 -> 1 <= c3 -> 1 <= L -> 1 <= Lc ->
   exists b1 b2 b3,
@@ -110,9 +109,9 @@ Theorem encodings_agree (d : dense) mr mc nr nc c1 c2 c3 E L Lc :
     iterate_csc mc nr nc c3 E L Lc = Ok b3 /\
     concat (map snd b1) = d /\ concat (map snd b2) = d /\ concat (map snd b3) = d.
 Proof.
-  intros HL Wr NDr Dr Wc HP HD NDc Hne Dc H1 H2 H3 H4 H5.
+  intros HL Wr NDr Dr Wc HP HD NDc Dc H1 H2 H3 H4 H5.
   destruct (iterate_dense_exact d nr c1 HL H1) as (b1 & E1 & _ & _ & _ & C1).
   destruct (iterate_csr_exact mr nr nc c2 Wr NDr H2) as (b2 & E2 & _ & _ & _ & C2).
-  destruct (iterate_csc_exact mc nr nc c3 E L Lc Wc HP HD NDc Hne H3 H4 H5) as (b3 & E3 & _ & _ & _ & C3).
+  destruct (iterate_csc_exact mc nr nc c3 E L Lc Wc HP HD NDc H3 H4 H5) as (b3 & E3 & _ & _ & _ & C3).
   cbn zeta in C3. exists b1, b2, b3. rewrite Dr in C2. rewrite Dc in C3. tauto.
 Qed.
